@@ -155,6 +155,18 @@ def r1_census(ctx, M):
             outs = RP.analyse(ctx)["outs"]
         else:
             outs = ctx.px(fn)
+            # when the function-local analysis leaves a site undischarged, expand the function's crate-local helpers
+            # (free functions, closures, methods of its own type / of helper types) and analyse again: more precise, same sites
+            if any(s.failed and k not in allow for k, s in CEN.census(ctx, outs, typelevel=tl).items()):
+                from .common import helper_inline
+                own = (ctx.facts.fns.get(fn, {}).get("impl_self") or "").split("<")[0]
+                try:
+                    outs2 = ctx.px(fn, inline=helper_inline(ctx, own=(own,) if own else ()), key="helpers")
+                    if sum(1 for s in CEN.census(ctx, outs2, typelevel=tl).values() if s.failed) < \
+                            sum(1 for s in CEN.census(ctx, outs, typelevel=tl).values() if s.failed):
+                        outs = outs2
+                except Exception:
+                    pass
         outs_of[fn] = outs
         for o in outs:
             for ev in o.events:
